@@ -136,7 +136,37 @@ func runProbe(pr *c07Probe) probeResult {
 	return probeResult{text: sb.String(), issues: len(o.Issues), ctxGet: reads}
 }
 
+// c07NonTestProbe: the probe's only issue does not come from a test (a Preprocess refusal, a PostTransform returning a plain
+// error) and its node has no tests at all, so every field of that issue is filled from the execution's own contexts.
+func c07NonTestProbe(r *rng.Rand) *c07Probe {
+	refuse := func() *spec.Node {
+		return &spec.Node{Kind: spec.Pre, Elem: str(), PreName: "refuses", PreFn: func(any) (any, error) { return nil, errors.New("preprocess refused") }}
+	}
+	failing := func(k spec.Kind) *spec.Node {
+		return &spec.Node{Kind: k, Posts: []spec.Post{{Name: "returns-error", Fn: func(any) error { return errors.New("post-transform refused") }}}}
+	}
+	pr := &c07Probe{mode: ref.Parse}
+	switch r.Intn(5) {
+	case 0:
+		pr.node, pr.data = refuse(), "x"
+	case 1:
+		pr.node, pr.data = failing(spec.String), "x"
+	case 2:
+		pr.node, pr.mode, pr.val = failing(spec.Int), ref.Validate, 5
+	case 3:
+		pr.node, pr.data = structOf("a", refuse(), "b", str()), map[string]any{"a": "x", "b": "y"}
+	default:
+		pr.node, pr.data = sliceOf(failing(spec.String)), []any{"x", "y"}
+	}
+	pr.node.Number()
+	pr.desc = "non-test issue probe " + pr.node.Source()
+	return pr
+}
+
 func c07RandomProbe(r *rng.Rand) *c07Probe {
+	if r.Intn(7) == 0 {
+		return c07NonTestProbe(r)
+	}
 	n := c02Schema(r)
 	pr := &c07Probe{node: n}
 	switch r.Intn(6) {
